@@ -198,10 +198,11 @@ def body_device(h, tids, nfields1, q, first_accepted):
 # ------------------------------------------------------------------ the generator
 
 class LV:
-    """stand-in for an Lvalue target: gen_input only reads .type.type_id and hands the node to gen_lvalue_write"""
+    """stand-in for an Lvalue target: gen_input reads .type.type_id and .implicit_decl and hands the node to gen_lvalue_write"""
 
     def __init__(self, t):
         self.type = t
+        self.implicit_decl = None      # Lvalue.__init__ always sets it; gen_input reads it (implicit arrays)
 
 
 def body_gen(h, tids, same_line, q):
